@@ -1,0 +1,242 @@
+//go:build verif
+
+package rescache
+
+import (
+	"encoding/json"
+	"sort"
+	"sync"
+	"sync/atomic"
+	"time"
+
+	"github.com/resgateio/resgate/logger"
+	"github.com/resgateio/resgate/server/codec"
+	"github.com/resgateio/resgate/server/verifhook"
+)
+
+func verifPoint(site string) { verifhook.Point(site) }
+
+func verifCount(site string) { verifhook.Count(site) }
+
+func verifActivity() { verifhook.Activity() }
+
+func verifWrapGo(cb func()) func() { return verifhook.WrapGo(cb) }
+
+var verifEvictPending sync.Map // *Cache -> *atomic.Int64
+
+func verifEvictCounter(c *Cache) *atomic.Int64 {
+	if v, ok := verifEvictPending.Load(c); ok {
+		return v.(*atomic.Int64)
+	}
+	v, _ := verifEvictPending.LoadOrStore(c, new(atomic.Int64))
+	return v.(*atomic.Int64)
+}
+
+// verifEvict tracks entries handed to the eviction timer queue (+1) and
+// eviction callbacks that have returned (-1).
+func verifEvict(c *Cache, d int64) {
+	verifEvictCounter(c).Add(d)
+	if d > 0 {
+		verifhook.Count("evict.add")
+	} else {
+		verifhook.Count("evict.exit")
+	}
+}
+
+// verifEvictCancel removes e from the eviction queue (exactly what the next
+// line of addCount does) in order to learn whether it was still queued.
+func verifEvictCancel(e *EventSubscription) {
+	if e.cache.unsubQueue.Remove(e) {
+		verifEvictCounter(e.cache).Add(-1)
+		verifhook.Count("evict.cancel")
+	}
+}
+
+func verifResetDropped(rs *ResourceSubscription) {
+	if rs.resetting {
+		verifhook.AddNote("reset.dropped", rs.e.ResourceName+"?"+rs.query)
+	}
+}
+
+// VerifEvictionPending returns the number of entries that are queued for
+// eviction or whose eviction callback is still running.
+func (c *Cache) VerifEvictionPending() int64 { return verifEvictCounter(c).Load() }
+
+// VerifForget drops the eviction bookkeeping of a cache that is no longer used.
+func (c *Cache) VerifForget() { verifEvictPending.Delete(c) }
+
+// VerifSetUnsubscribeDelay sets the eviction delay. Must be called before Start.
+func (c *Cache) VerifSetUnsubscribeDelay(d time.Duration) { c.unsubscribeDelay = d }
+
+// VerifIdle reports whether no cache worker is running or due to run for any
+// cached resource.
+func (c *Cache) VerifIdle() bool {
+	c.mu.Lock()
+	defer c.mu.Unlock()
+	for _, e := range c.eventSubs {
+		e.mu.Lock()
+		busy := len(e.queue) > 0 || e.locks != nil
+		e.mu.Unlock()
+		if busy {
+			return false
+		}
+	}
+	return true
+}
+
+// VerifSubRef identifies a subscriber of a cached resource.
+type VerifSubRef struct {
+	CID string
+	RID string
+}
+
+// VerifRS is a snapshot of a ResourceSubscription.
+type VerifRS struct {
+	Query     string
+	State     int // 0 subscribed, 1 error, 2 requested, 3 collection, 4 model
+	Version   uint
+	Resetting bool
+	Subs      []VerifSubRef
+	Links     []string
+	Data      json.RawMessage
+	Err       string
+}
+
+// VerifEntry is a snapshot of an EventSubscription.
+type VerifEntry struct {
+	Name    string
+	Count   int64
+	MQSub   bool
+	Queue   int
+	Locked  bool
+	Base    *VerifRS
+	Queries map[string]*VerifRS
+	Links   map[string]string
+}
+
+func verifRS(rs *ResourceSubscription) *VerifRS {
+	v := &VerifRS{
+		Query:     rs.query,
+		State:     int(rs.state),
+		Version:   rs.version,
+		Resetting: rs.resetting,
+		Links:     append([]string(nil), rs.links...),
+	}
+	for sub := range rs.subs {
+		ref := VerifSubRef{CID: sub.CID()}
+		if r, ok := sub.(interface{ RID() string }); ok {
+			ref.RID = r.RID()
+		}
+		v.Subs = append(v.Subs, ref)
+	}
+	sort.Slice(v.Subs, func(i, j int) bool {
+		if v.Subs[i].CID != v.Subs[j].CID {
+			return v.Subs[i].CID < v.Subs[j].CID
+		}
+		return v.Subs[i].RID < v.Subs[j].RID
+	})
+	switch rs.state {
+	case stateModel:
+		v.Data, _ = json.Marshal(rs.model.Values)
+	case stateCollection:
+		v.Data, _ = json.Marshal(rs.collection.Values)
+	case stateError:
+		if rs.err != nil {
+			v.Err = rs.err.Error()
+		}
+	}
+	return v
+}
+
+// VerifSnapshot returns a consistent snapshot of all cache entries.
+func (c *Cache) VerifSnapshot() []VerifEntry {
+	c.mu.Lock()
+	defer c.mu.Unlock()
+	out := make([]VerifEntry, 0, len(c.eventSubs))
+	for name, e := range c.eventSubs {
+		e.mu.Lock()
+		ve := VerifEntry{
+			Name:   name,
+			Count:  e.count,
+			MQSub:  e.mqSub != nil,
+			Queue:  len(e.queue),
+			Locked: e.locks != nil,
+		}
+		if e.base != nil {
+			ve.Base = verifRS(e.base)
+		}
+		if len(e.queries) > 0 {
+			ve.Queries = make(map[string]*VerifRS, len(e.queries))
+			for q, rs := range e.queries {
+				ve.Queries[q] = verifRS(rs)
+			}
+		}
+		if len(e.links) > 0 {
+			ve.Links = make(map[string]string, len(e.links))
+			for q, rs := range e.links {
+				ve.Links[q] = rs.query
+			}
+		}
+		e.mu.Unlock()
+		out = append(out, ve)
+	}
+	sort.Slice(out, func(i, j int) bool { return out[i].Name < out[j].Name })
+	return out
+}
+
+// VerifLCS exposes the collection diff routine.
+func VerifLCS(a, b []codec.Value) []*ResourceEvent { return lcs(a, b) }
+
+type verifNullLogger struct{}
+
+func (verifNullLogger) Log(string)    {}
+func (verifNullLogger) Error(string)  {}
+func (verifNullLogger) Debug(string)  {}
+func (verifNullLogger) Trace(string)  {}
+func (verifNullLogger) IsDebug() bool { return false }
+func (verifNullLogger) IsTrace() bool { return false }
+
+var _ logger.Logger = verifNullLogger{}
+
+type verifCapture struct{ events []*ResourceEvent }
+
+func (v *verifCapture) CID() string                                { return "verif" }
+func (v *verifCapture) Loaded(rs *ResourceSubscription, err error) {}
+func (v *verifCapture) Event(ev *ResourceEvent)                    { v.events = append(v.events, ev) }
+func (v *verifCapture) ResourceName() string                       { return "verif.reset" }
+func (v *verifCapture) ResourceQuery() string                      { return "" }
+func (v *verifCapture) Reaccess(t *Throttle)                       {}
+
+func verifResetRS(state subscriptionState) (*ResourceSubscription, *verifCapture) {
+	c := &Cache{logger: verifNullLogger{}, depLogged: make(map[string]featureType)}
+	e := &EventSubscription{ResourceName: "verif.reset", cache: c, count: 1}
+	rs := newResourceSubscription(e, "")
+	e.base = rs
+	rs.state = state
+	capt := &verifCapture{}
+	rs.subs[capt] = struct{}{}
+	return rs, capt
+}
+
+// VerifCollectionReset runs the real reset pipeline (diff, then application
+// of each derived event to the cached collection) for old -> new and returns
+// the events fanned out to subscribers and the resulting cached collection.
+func VerifCollectionReset(old, new []codec.Value) ([]*ResourceEvent, []codec.Value) {
+	rs, capt := verifResetRS(stateCollection)
+	rs.collection = &Collection{Values: old}
+	rs.e.mu.Lock()
+	rs.processResetCollection(new)
+	rs.e.mu.Unlock()
+	return capt.events, rs.collection.Values
+}
+
+// VerifModelReset is the model counterpart of VerifCollectionReset. The new
+// map is consumed (the reset routine mutates it).
+func VerifModelReset(old, new map[string]codec.Value) ([]*ResourceEvent, map[string]codec.Value) {
+	rs, capt := verifResetRS(stateModel)
+	rs.model = &Model{Values: old}
+	rs.e.mu.Lock()
+	rs.processResetModel(new)
+	rs.e.mu.Unlock()
+	return capt.events, rs.model.Values
+}
